@@ -103,6 +103,21 @@ func CheckFAT(d Dev, start, size int64, wantType int) *FATReport {
 	if r.DataStart+r.Clusters*r.ClusterBytes > size {
 		r.add("bpb-geometry", "data area [%d,+%d clusters) exceeds the %d-byte range", r.DataStart, r.Clusters, size)
 	}
+	// whether the table of a volume with the FAT12/16 layout of the boot sector has 12-bit or 16-bit entries is
+	// a function of its count of clusters and of nothing else (Microsoft FAT specification, "FAT type
+	// determination"): a reader has no other way to tell, whatever the creator meant. (FAT32 is recognisable by
+	// its boot sector - no root entries, no 16-bit FAT size - and common readers go by that, so small FAT32
+	// volumes are not judged here.)
+	specType := wantType
+	if wantType != 32 {
+		specType = 16
+		if r.Clusters < 4085 {
+			specType = 12
+		}
+	}
+	if specType != wantType {
+		r.add("bpb-fat-type", "a volume of %d clusters is FAT%d for every reader, it was made as FAT%d", r.Clusters, specType, wantType)
+	}
 	// entries must fit the FAT
 	var entBits int64 = 12
 	switch wantType {
